@@ -37,6 +37,9 @@ pub enum Item {
     /// STOP in the middle of the main program (a breakpoint): the run holds the halt for a few edges and
     /// then presses the continue key; a key press before or during the halt is served right after it
     Breakpoint,
+    /// plain store of an arbitrary byte to the interrupt mask register 0xF9 (bit 0 is the key-edge
+    /// enable bit; the other bits, assigned or not, must not matter)
+    MaskWrite(u8),
 }
 
 #[derive(Clone, Debug, Serialize, Deserialize)]
@@ -79,6 +82,7 @@ fn item() -> impl Strategy<Value = Item> {
         2 => (0u8..2).prop_map(Item::Call),
         2 => any::<bool>().prop_map(Item::KeyEnable),
         1 => Just(Item::Breakpoint),
+        2 => prop_oneof![any::<u8>(), prop::sample::select(vec![0x01u8, 0x00, 0xFF, 0xFE, 0xC1, 0x80, 0x41, 0x3F, 0xC0])].prop_map(Item::MaskWrite),
     ];
     leaf.prop_recursive(3, 16, 4, |inner| {
         prop_oneof![
@@ -108,14 +112,18 @@ fn set_enable() -> Tm {
 
 /// Lay the program out: 0: JR MAIN; 2: JMP ISR; 5: MAIN ... STOP; subs; ISR.  None if it does not fit below the data area.
 pub fn layout(p: &Prog) -> Option<Vec<u8>> {
-    layout_with_end(p).map(|(c, _)| c)
+    layout_with_end(p).map(|(c, _, _)| c)
 }
+
+/// (address of the instruction that stores to the interrupt mask register, key-edge enable bit it writes)
+pub type MaskStores = Vec<(u8, bool)>;
 
 /// image and the value of the PC right after the *final* STOP was fetched (every other regular stop
 /// is a breakpoint)
-pub fn layout_with_end(p: &Prog) -> Option<(Vec<u8>, u8)> {
+pub fn layout_with_end(p: &Prog) -> Option<(Vec<u8>, u8, MaskStores)> {
     let mut code: Vec<u8> = vec![0x20, 0x03, 0xFB, 0x00, 0x13];
     let mut call_sites: Vec<(usize, u8)> = vec![];
+    let mut masks: MaskStores = vec![];
     let emit = |code: &mut Vec<u8>, ts: &[Tm]| {
         for t in ts {
             assemble_one(t, code);
@@ -123,12 +131,13 @@ pub fn layout_with_end(p: &Prog) -> Option<(Vec<u8>, u8)> {
     };
     emit(&mut code, &[Tm::LdSp(p.sp0)]);
     if p.enable_at_start {
+        masks.push((code.len() as u8, true));
         emit(&mut code, &[set_enable()]);
     }
     if p.ei_at_start {
         emit(&mut code, &[Tm::Ei(0)]);
     }
-    fn emit_items(code: &mut Vec<u8>, call_sites: &mut Vec<(usize, u8)>, items: &[Item]) {
+    fn emit_items(code: &mut Vec<u8>, call_sites: &mut Vec<(usize, u8)>, masks: &mut MaskStores, items: &[Item]) {
         let emit = |code: &mut Vec<u8>, ts: &[Tm]| {
             for t in ts {
                 assemble_one(t, code);
@@ -154,31 +163,37 @@ pub fn layout_with_end(p: &Prog) -> Option<(Vec<u8>, u8)> {
                 }
                 Item::PushPop(r, b) => {
                     emit(code, &[Tm::Push(*r)]);
-                    emit_items(code, call_sites, b);
+                    emit_items(code, call_sites, masks, b);
                     emit(code, &[Tm::Pop(*r)]);
                 }
                 Item::DiWindow(b) => {
                     emit(code, &[Tm::Di(0)]);
-                    emit_items(code, call_sites, b);
+                    emit_items(code, call_sites, masks, b);
                     emit(code, &[Tm::Ei(0)]);
                 }
                 Item::KeyEnable(on) => {
                     if *on {
+                        masks.push((code.len() as u8, true));
                         emit(code, &[set_enable()]);
                     } else {
+                        masks.push(((code.len() + 3) as u8, false));
                         emit(code, &[Tm::LdConst(1, 0), Tm::StAbs(0xF9, 1)]);
                     }
                 }
                 Item::FlagsSaved(b) => {
                     emit(code, &[Tm::PushF]);
-                    emit_items(code, call_sites, b);
+                    emit_items(code, call_sites, masks, b);
                     emit(code, &[Tm::PopF]);
                 }
                 Item::Breakpoint => code.push(0x01),
+                Item::MaskWrite(b) => {
+                    masks.push(((code.len() + 3) as u8, *b & 1 == 1));
+                    emit(code, &[Tm::LdConst(1, *b), Tm::StAbs(0xF9, 1)])
+                }
             }
         }
     }
-    emit_items(&mut code, &mut call_sites, &p.items);
+    emit_items(&mut code, &mut call_sites, &mut masks, &p.items);
     code.push(0x01); // STOP
     let final_pc = code.len() as u8;
     let mut sub_addr = [0u8; 2];
@@ -203,7 +218,7 @@ pub fn layout_with_end(p: &Prog) -> Option<(Vec<u8>, u8)> {
     if code.len() > DATA_LO as usize {
         return None;
     }
-    Some((code, final_pc))
+    Some((code, final_pc, masks))
 }
 
 /// regular stop that is not the end of the program
@@ -227,13 +242,24 @@ struct Tracked {
     arrivals: u64,
     /// the edge count at which the current instruction started
     mid: bool,
+    /// address of the instruction in flight (or about to be fetched)
+    cur_addr: u8,
+    /// key-edge enable bit according to the program text: the bit written by the last *completed* store to
+    /// the mask register (never read back from the machine under test)
+    model_en: bool,
+    masks: std::sync::Arc<MaskStores>,
 }
 
 impl Tracked {
-    fn new(m: Machine) -> Self {
+    fn new(m: Machine, masks: std::sync::Arc<MaskStores>) -> Self {
         let d = m.is_instruction_done();
-        let op = m.bus().read(m.registers().content()[3]);
-        Tracked { m, cur_op: if d { op } else { 0x02 }, was_done: d, arrivals: 0, mid: false }
+        let pc = m.registers().content()[3];
+        let op = m.bus().read(pc);
+        Tracked { m, cur_op: if d { op } else { 0x02 }, was_done: d, arrivals: 0, mid: false, cur_addr: if d { pc } else { 0xFF }, model_en: false, masks }
+    }
+    /// the mask store in flight (if any) flips the enable bit
+    fn mask_change_in_flight(&self) -> bool {
+        self.mid && self.masks.iter().any(|(a, v)| *a == self.cur_addr && *v != self.model_en)
     }
     /// one edge; returns Some(completed opcode) when a boundary is newly reached
     fn edge(&mut self) -> Option<u8> {
@@ -241,7 +267,11 @@ impl Tracked {
         let d = self.m.is_instruction_done();
         let r = if d && !self.was_done {
             let done = self.cur_op;
-            self.cur_op = self.m.bus().read(self.m.registers().content()[3]);
+            if let Some((_, v)) = self.masks.iter().find(|(a, _)| *a == self.cur_addr) {
+                self.model_en = *v;
+            }
+            self.cur_addr = self.m.registers().content()[3];
+            self.cur_op = self.m.bus().read(self.cur_addr);
             self.arrivals += 1;
             Some(done)
         } else {
@@ -285,10 +315,10 @@ pub struct RunStats {
 
 type Fail = (String, String);
 
-fn run_triggered(bc: &ByteCode, final_pc: u8, triggers: &[usize], st: &mut RunStats) -> Result<(Machine, u64), Fail> {
+fn run_triggered(bc: &ByteCode, final_pc: u8, masks: &std::sync::Arc<MaskStores>, triggers: &[usize], st: &mut RunStats) -> Result<(Machine, u64), Fail> {
     let mut m = Machine::new(MachineConfig::default());
     m.load(bc.clone());
-    let mut r = Tracked::new(m);
+    let mut r = Tracked::new(m, masks.clone());
     let mut ob: Option<Ob> = None;
     let mut entries = 0u64;
     let mut t = 0usize;
@@ -313,7 +343,9 @@ fn run_triggered(bc: &ByteCode, final_pc: u8, triggers: &[usize], st: &mut RunSt
         for _ in 0..hits {
             if ob.is_none() {
                 let mut u = r.clone();
-                let en = u.m.bus().is_key_edge_int_enabled();
+                // the enable bit as the program text has it (a store in flight that flips it leaves the press undecided)
+                let en = u.model_en;
+                let en_in_flight = u.mask_change_in_flight();
                 let ief_t = u.m.registers().interrupt_enable_flag();
                 let mid = !u.m.is_instruction_done();
                 let mut halted = false;
@@ -338,7 +370,9 @@ fn run_triggered(bc: &ByteCode, final_pc: u8, triggers: &[usize], st: &mut RunSt
                     }
                 }
                 let ief_b = u.m.registers().interrupt_enable_flag();
-                let exp = if !en {
+                let exp = if en_in_flight {
+                    Exp::Free
+                } else if !en {
                     Exp::MustNot
                 } else if ief_t && ief_b && !halted {
                     Exp::Must
@@ -365,7 +399,7 @@ fn run_triggered(bc: &ByteCode, final_pc: u8, triggers: &[usize], st: &mut RunSt
                 // a second press before the first is decided joins the same obligation; if the enable
                 // bit has been set in the meantime (the instruction in flight is the one that sets it),
                 // a must-not obligation no longer holds
-                let en2 = r.m.bus().is_key_edge_int_enabled();
+                let en2 = r.model_en || r.mask_change_in_flight();
                 if let Some(o) = ob.as_mut() {
                     if en2 && o.exp == Exp::MustNot {
                         o.exp = Exp::Free;
@@ -489,7 +523,7 @@ pub fn check_prog(p: &Prog, pairs_window: Option<(usize, usize)>, only: Option<&
         p.items.pop();
     }
     let p = &p;
-    let (image, final_pc) = match layout_with_end(p) {
+    let (image, final_pc, masks) = match layout_with_end(p) {
         Some(i) => i,
         None => {
             ps.fits = false;
@@ -497,8 +531,9 @@ pub fn check_prog(p: &Prog, pairs_window: Option<(usize, usize)>, only: Option<&
         }
     };
     let bc = bytecode(&image, p.stack48);
+    let masks = std::sync::Arc::new(masks);
     let mut scratch = RunStats::default();
-    let (base, e0) = match run_triggered(&bc, final_pc, &[], &mut scratch) {
+    let (base, e0) = match run_triggered(&bc, final_pc, &masks, &[], &mut scratch) {
         Ok(x) => x,
         Err((s, d)) => {
             // a generated program that does not terminate or error-stops is discarded, not a finding
@@ -537,7 +572,7 @@ pub fn check_prog(p: &Prog, pairs_window: Option<(usize, usize)>, only: Option<&
     ps.t = tmax;
     let mut one = |trigs: &[usize], ps: &mut ProgStats| -> Result<(), Fail> {
         ps.runs += 1;
-        let (m, entries) = run_triggered(&bc, final_pc, trigs, &mut ps.st)?;
+        let (m, entries) = run_triggered(&bc, final_pc, &masks, trigs, &mut ps.st)?;
         let cnt = m.bus().memory()[CNT] as u64;
         if cnt != entries {
             return Err(("int:entry-count".into(), format!("trigger(s) {:?}: the routine ran {} time(s) but {} entr(y/ies) were observed at instruction boundaries", trigs, cnt, entries)));
